@@ -330,6 +330,9 @@ def corpus():
         # quantized first piece is merged unshifted (accepted); quantized later piece is rejected by shift
         {'op': 'concat', 'input': {'seqs': [_mini([n1], 8 * Q, spq=4), _mini([n1], 8 * Q)], 'durs': None}},
         {'op': 'concat', 'input': {'seqs': [_mini([n1], 8 * Q), _mini([n1], 8 * Q, spq=4)], 'durs': None}},
+        # quantization_info is a oneof: the later piece's steps_per_second replaces steps_per_quarter (both pieces
+        # have total_time 0, so neither is shifted and neither is rejected)
+        {'op': 'concat', 'input': {'seqs': [_mini(spq=1, qsteps=54), _mini(sps=10, qsteps=2, total=0)], 'durs': None}},
         # repeat: exact multiple, one tick over, explicit duration, zero duration
         {'op': 'repeat', 'input': {'seq': full, 'd': 16 * Q, 'sd': None}},
         {'op': 'repeat', 'input': {'seq': full, 'd': 16 * Q + 1, 'sd': None}},
